@@ -491,7 +491,20 @@ func (env *SpecEnv) callExpr(x *ast.CallExpr) *Value {
 		n := *env
 		if env.head != nil {
 			n.st = env.head
-			n.lookup = env.headLookup
+			hl, cur := env.headLookup, env.lookup
+			// a name that has no value yet at the loop head (a range key or value, a local of the body) keeps its
+			// current value: head(has(m, k)) reads the map as it was at the head, at the key of this iteration
+			n.lookup = func(name string) *Value {
+				if hl != nil {
+					if v := hl(name); v != nil {
+						return v
+					}
+				}
+				if cur != nil {
+					return cur(name)
+				}
+				return nil
+			}
 		}
 		return n.eval(x.Args[0])
 	case "obj":
@@ -672,7 +685,16 @@ func (e *Exec) nameLookup(st *State, fr *Frame, at *ssa.BasicBlock) func(string)
 					}
 				case *ssa.DebugRef:
 					if id, ok := in.Expr.(*ast.Ident); ok && id.Name == name {
-						if v, ok := fr.vals[in.X]; ok && b.Index >= bestIdx {
+						v, ok := fr.vals[in.X]
+						if !ok {
+							// a component of a tuple (range key / value, comma-ok) is extracted on demand
+							if ex, isEx := in.X.(*ssa.Extract); isEx {
+								if _, has := fr.vals[ex.Tuple]; has {
+									v, ok = e.val(st, fr, ex), true
+								}
+							}
+						}
+						if ok && b.Index >= bestIdx {
 							if in.IsAddr {
 								T := in.X.Type().(*types.Pointer).Elem()
 								best = &Value{T: T, L: e.loadT(st, v.One(), T)}
